@@ -57,6 +57,34 @@ fn random_formula(rng: &mut SplitMix64, depth: usize, atoms: &[&str]) -> String 
     }
 }
 
+/// a random formula of the documented grammar with its intended meaning: printed with AND binding
+/// tighter than OR, parentheses where needed (plus redundant ones), `&&` or juxtaposition, random spacing
+fn grammar_formula(rng: &mut SplitMix64, depth: usize) -> (String, String, u8) {
+    // returns (text, prefix-notation meaning, precedence level: 0 atom / parenthesised, 1 conjunction, 2 disjunction)
+    let atoms = ["A::a", "B::b", "C::c", "Dé::é", "E :: e", "F::f g"];
+    let sp = |rng: &mut SplitMix64| -> &'static str { *rng.pick(&["", " ", "  ", "\u{a0}", " \t", "\u{2003}"]) };
+    if depth == 0 || rng.chance(1, 3) {
+        let i = rng.below(atoms.len());
+        return (format!("{}{}{}", sp(rng), atoms[i], sp(rng)), format!("a{i}"), 0);
+    }
+    let (l, lm, lp) = grammar_formula(rng, depth - 1);
+    let (r, rm, rp) = grammar_formula(rng, depth - 1);
+    let paren = |s: String, rng: &mut SplitMix64| format!("{}({}){}", sp(rng), s, sp(rng));
+    if rng.chance(1, 2) {
+        // conjunction: operands that are disjunctions need parentheses
+        let l2 = if lp == 2 || rng.chance(1, 5) { paren(l, rng) } else { l };
+        let r2 = if rp == 2 || rng.chance(1, 5) { paren(r, rng) } else { r };
+        // juxtaposition only between a parenthesised group and its neighbour
+        let juxt = (l2.trim_end().ends_with(')') || r2.trim_start().starts_with('(')) && rng.chance(1, 3);
+        let s = if juxt { format!("{l2}{}{r2}", if l2.ends_with(')') || r2.starts_with('(') { "" } else { " " }) } else { format!("{l2}&&{r2}") };
+        (s, format!("&.{lm}.{rm}"), 1)
+    } else {
+        let l2 = if rng.chance(1, 5) { paren(l, rng) } else { l };
+        let r2 = if rng.chance(1, 5) { paren(r, rng) } else { r };
+        (format!("{l2}||{r2}"), format!("|.{lm}.{rm}"), 2)
+    }
+}
+
 pub fn plan_c15(tier: &str, seed: u64) -> Plan {
     let alpha = ['A', 'é', ':', '&', '|', '(', ')', ' ', '*', '\u{a0}'];
     let n = if tier == "thorough" { 6 } else { 4 };
@@ -81,11 +109,19 @@ pub fn plan_c15(tier: &str, seed: u64) -> Plan {
         let f = random_formula(&mut rng, 4, &atoms);
         lines.push(format!("parse x{}", h(&f)));
     }
+    // the documented grammar with its intended meaning: specification oracle on the implementation
+    let mut expect = vec![];
+    let ng = if tier == "thorough" { 20000 } else { 3000 };
+    for _ in 0..ng {
+        let (txt, meaning, _) = grammar_formula(&mut rng, 4);
+        lines.push(format!("parse_eq x{} {}", h(&txt), meaning));
+        expect.push((lines.len() - 1, Expect { out: "ok eq=1".into(), oracle: "parse-not-equivalent-to-formula".into(), tags: vec![] }));
+    }
     Plan {
         per_line: true,
-        cases: vec![Case { expect: vec![], name: format!("c15-exhaustive-len{n}+formulas"), lines }],
+        cases: vec![Case { expect, name: format!("c15-exhaustive-len{n}+formulas"), lines }],
         exhaustive: true,
-        rule: format!("every string over {{A,é,:,&,|,(,),space,*,U+00A0}} of length <= {n} (exhaustive), the documented examples and targeted non-ASCII shapes, and {nf} random formulas (<=16 atoms, random spacing, redundant parentheses, juxtaposition); a case is one string; parse result (AST and DNF, or error) of the implementation is compared with the Lean model; distinct = distinct (input, outcome) pairs"),
+        rule: format!("every string over {{A,é,:,&,|,(,),space,*,U+00A0}} of length <= {n} (exhaustive), the documented examples and targeted non-ASCII shapes, {nf} random printed strings (random spacing, redundant parentheses, juxtaposition) and {ng} formulas of the documented grammar (AND before OR, parentheses, && or juxtaposition, Unicode spacing, multi-byte and spaced names) whose parsed policy and DNF are compared with the intended formula under all 64 assignments, on the implementation (specification oracle) and on the model; a case is one string; parse result (AST and DNF, or error) of the implementation is compared with the Lean model; distinct = distinct (input, outcome) pairs"),
     }
 }
 
